@@ -6,19 +6,21 @@ VERIF = os.path.dirname(os.path.dirname(os.path.abspath(__file__)))
 
 TECH = 'Coq 8.16 theorems on a model (tables/regexes regenerated from source + hand model); extracted-model vs implementation correspondence; oracle search for the failing input'
 
-CHECKS = {
-    'C05': dict(
-        text='Machine-checked (Coq, closed under the global context): for every text over Unicode code points the tokenizer model '
-             'is total (no production list can get stuck: generated productions non-nullable and first-character cover by vm_compute), '
-             'its spans tile the input, positions are the LF-counting advance over preceding spans (leading BOM zero-width), values are '
-             'the span resp. its one-pass escape decoding, full-sheet mode ends in exactly one EOF. The lexical tables, regexes and literal sets are '
-             'regenerated from cssproductions.py/tokenize2.py/helper.py on every run; the loop model is tied to Tokenizer.tokenize by '
-             'differential runs of the extracted model. The recover-known-token-sequences clause (T5) and error-message positions are covered by the oracle search only.',
-        note='Trusted: Coq kernel + vm_compute; translator/regex2coq.py with CPython re._parser as front end and per-class code-point queries; '
-             'ExtrOcamlBasic extraction + 40-line OCaml driver; hand model of the tokenize loop (validated by correspondence on every run, not verified); '
-             'independent reference escape decoder in the oracle.',
-        design='7/C05'),
-}
+def collect():
+    import glob
+    import importlib
+    import sys
+    sys.path.insert(0, VERIF)
+    out = {}
+    for f in sorted(glob.glob(os.path.join(VERIF, 'harness', 'props', 'c[0-9][0-9].py'))):
+        pid = os.path.basename(f)[:-3].upper()
+        mod = importlib.import_module('harness.props.' + pid.lower())
+        if hasattr(mod, 'MANIFEST'):
+            out[pid] = mod.MANIFEST
+    return out
+
+
+CHECKS = collect()
 
 NOT_YET = {}
 
